@@ -9,7 +9,7 @@ from allmydata.util import base32, log, dictutil
 from allmydata.util.happinessutil import servers_of_happiness
 from allmydata.check_results import CheckAndRepairResults, CheckResults
 
-from allmydata.mutable.common import MODE_CHECK, MODE_WRITE, CorruptShareError
+from allmydata.mutable.common import MODE_CHECK, MODE_REPAIR, CorruptShareError
 from allmydata.mutable.servermap import ServerMap, ServermapUpdater
 from allmydata.mutable.retrieve import Retrieve # for verifying
 
@@ -251,7 +251,7 @@ class MutableChecker:
 
 
 class MutableCheckAndRepairer(MutableChecker):
-    SERVERMAP_MODE = MODE_WRITE # needed to get the privkey
+    SERVERMAP_MODE = MODE_REPAIR # query all peers, and get the privkey
 
     def __init__(self, node, storage_broker, history, monitor):
         MutableChecker.__init__(self, node, storage_broker, history, monitor)
